@@ -80,6 +80,19 @@ class Env:
             _real_shutil.rmtree(self.tmp, ignore_errors=True)
         return False
 
+    def chdir(self, path):
+        """change the working directory of the (modelled or real) process; undone when the Env exits"""
+        if self.mode == "sym":
+            old = getattr(self.fs, "cwd", "/cwd")
+            self.fs.cwd = self.fs._norm(path)
+            self._restore.append(lambda: setattr(self.fs, "cwd", old))
+        else:
+            import os as _os
+
+            old = _os.getcwd()
+            _os.chdir(path)
+            self._restore.append(lambda: _os.chdir(old))
+
     # ------------------------------------------------------------------
     def _install_fs(self, cp, fm, mg):
         if self.want_fs == "step":
